@@ -109,6 +109,9 @@ fn difficulties(dst: u8, n: u32, rich: bool) -> Vec<(String, Difficulty)> {
         Setting { lazer: Some(false), ..Setting::nm() },
         Setting::mods(ModSpec::Classic(None)),
         Setting { rate: Some(1.2), od: Some((9.1, false)), ..Setting::nm() },
+        // overrides at the ends of the accepted range (hit windows below zero, approach times beyond the tables)
+        Setting { od: Some((20.0, false)), ar: Some((-20.0, false)), cs: Some((20.0, false)), hp: Some((20.0, false)), ..Setting::nm() },
+        Setting { od: Some((-20.0, true)), ar: Some((20.0, true)), cs: Some((-20.0, false)), hp: Some((-20.0, false)), ..Setting::bits(settings::DT) },
     ];
     if dst == 3 {
         base.push(Setting::mods(ModSpec::HoldOff));
